@@ -334,6 +334,9 @@ func (g *qeGen) leaf(table string) string {
 			base = vPick(r, []string{"", "nothing", "a", "Everything", "prod"})
 		}
 		switch {
+		case (op == "~~" || op == "~") && base != "" && r.chance(1, 5):
+			// the whole value, anchored, in another case: the optimiser turns it into an equality test
+			val = "^" + qeSwapCase(base) + "$"
 		case isRegexOp:
 			val = g.regexFrom(base)
 		case r.chance(1, 5):
@@ -419,11 +422,26 @@ func (g *qeGen) cutoffRequest(table string) string {
 		return vPick(r, names)
 	}
 	shape := r.intn(5)
+	// a host whose name is the beginning of another host's name: selecting both through the index is where the
+	// order of the pre-selected rows can differ from the store's
+	prefixName := ""
+	for _, a := range names {
+		for _, b := range names {
+			if a != b && a != "" && strings.HasPrefix(b, a) {
+				prefixName = a
+			}
+		}
+	}
+	if prefixName != "" && r.chance(2, 3) {
+		shape = 6
+	}
 	if g.pCutoff > 0 && r.chance(1, 2) {
 		shape = 5 // cluster: the whole table, every node has to merge all its backends before it cuts
 	}
 	switch shape {
 	case 5:
+	case 6:
+		lines = append(lines, fmt.Sprintf("Filter: %s %s %s", hcol, vPick(r, []string{"~", "~~"}), qeRegexQuote(prefixName)))
 	case 0, 1:
 		rs := []rune(pickName())
 		n := 1 + r.intn(3)
@@ -627,7 +645,7 @@ func (g *qeGen) groupedStats(table string, lines *[]string) {
 		for b := 0; b < blocks; b++ {
 			cur := append([]string{}, first...)
 			// near variants of the shared first term in later blocks: the optimiser must not take them for the same term
-			if len(first) == 1 && ((b == 1 && r.chance(1, 6)) || (b >= 2 && r.chance(1, 2))) {
+			if len(first) == 1 && ((b == 1 && r.chance(1, 3)) || (b >= 2 && r.chance(1, 2))) {
 				parts := strings.SplitN(first[0], " ", 5) // Stats: <col> <op> <rest>
 				switch {
 				case strings.HasPrefix(first[0], "Stats: custom_variables") && len(parts) == 5:
